@@ -385,7 +385,8 @@ def shrink(mod, case, div):
         shrinker = session.shrink
     elif isinstance(case, dict) and case.get('scenario') in (
             'reentry', 'overtake', 'disable_in_on_add', 'stale-mark',
-            'nested_batch', 'suite', 'unreferenced'):
+            'nested_batch', 'suite', 'unreferenced', 'prepopulated',
+            'lineage', 'none-id'):
         shrinker = default_shrink       # small fixed-shape scenarios
     progress = True
     while progress and runs < MAX_SHRINK_RUNS:
